@@ -3,6 +3,7 @@
    what that property's statements need, so that a change which breaks one property's proof leaves the
    others' theorems checkable. *)
 From NTRIP Require Import Base Net ProdCons.
+From NTRIP Require Writers.
 From NTRIPGen Require Import GenConsts.
 
 (* ===================== C11 ===================== *)
@@ -38,6 +39,20 @@ Theorem C11_no_deadlock : forall (V : Type) lat cap (ms : list V) c, (1 <= cap)%
   nth 0%nat (procs c) (MDone V) = MDone V /\ nth 1%nat (procs c) (MDone V) = WHalt V.
 Proof. intros V lat cap ms c Hc. exact (no_deadlock V lat false true cap ms c eq_refl Hc). Qed.
 Print Assumptions C11_no_deadlock.
+
+(* Any number of writers (Writers.v): main sends every message to writers 0..k-1 in turn over bounded
+   channels, closes all channels, waits for every writer (rtcmfilter's WaitGroup; the wait is in the
+   program only if the fact waits_rtcmfilter, regenerated from the source, says the code waits) and
+   returns; each writer loops receive - latency - write and signals when its channel is closed.
+   For every k, every message list, all capacities, latencies and schedules: in every reachable
+   configuration in which main has returned, every writer has written exactly the messages, in
+   order.  (Writers.flushed_at_return proves this for ANY straight-line main program that never
+   sends to a writer after closing its channel and waits for every writer before returning.) *)
+Theorem C11_k_writers : forall (V : Type) lat cap k (msgs : list V) c,
+  Writers.reach V lat cap (Writers.init V (Writers.std_prog_opt V waits_rtcmfilter k msgs)) c ->
+  Writers.returned V c = true -> forall i, (i < k)%nat -> Writers.wrote V c i = msgs.
+Proof. intros V lat cap k msgs c. exact (Writers.std_flushed_at_return V lat cap k msgs c). Qed.
+Print Assumptions C11_k_writers.
 
 (* The protocol without the wait (the code before its repair) loses output: main has returned and
    the writer has written nothing. *)
